@@ -22,7 +22,12 @@ RULE = ('hostile population: a real asyncssh server with a scripted '
         'drawn history of up to 10 USERAUTH messages (none, password right/'
         'wrong/other user\'s, publickey query/signed with signatures over '
         'the right data or a wrong session id, user, service, key or '
-        'algorithm, keyboard-interactive, hostbased), pipelined or not, then '
+        'algorithm, keyboard-interactive, hostbased -- in a quarter of the '
+        'runs the server has known_client_hosts, trusts the claimed name or '
+        'reverse-resolves the client address on the simulated DNS, and the '
+        'requests are signed with a drawn host key for a drawn claimed name '
+        'and client user, over the right data or a wrong session id / name / '
+        'key), pipelined or not, then '
         'probes (session+pty+exec, direct-tcpip to two destinations). A '
         'reference model over the history decides: success only if some '
         'received request for the user the server reports was valid; before '
@@ -73,6 +78,7 @@ PROBES = ['success_seen', 'pipelined', 'validator_async',
           'success_with_pending_request', 'probe_before_auth',
           'options_checked', 'honest_admitted', 'honest_rejected',
           'guest_success', 'kbdint_success', 'pk_success', 'pw_success',
+          'hostbased_request', 'hostbased_success',
           'pop_restrict', 'agent_used', 'agent_fault_fired', 'cert_offered',
           'restrictions_checked', 'forced_command', 'forwarding_restricted',
           'restrict_undecided']
@@ -97,6 +103,31 @@ KEYS = {
 ALL_KEYS = ['user_ed25519', 'user2_ed25519', 'user_rsa', 'evil_ed25519',
             'user_ecdsa256']
 USERS = ['alice', 'bob', 'guest', 'kbd', 'nobody']
+
+# host-based authentication: the server's known_client_hosts, the
+# application's (user, client host, client user) policy, the names a
+# request may claim and the keys it may be signed with
+HB_KNOWN = {'hostA': 'host2_ed25519', 'hostB': 'host2_ecdsa256'}
+HB_REVOKED = 'evil_ed25519'
+HB_POLICY = {('alice', 'hostA', 'alice'), ('bob', 'hostB', 'root')}
+HB_CLAIMS = ['hostA', 'hostB', 'hostC', 'hostA.']
+HB_KEYS = ['host2_ed25519', 'host2_ecdsa256', 'evil_ed25519', 'host2_rsa']
+HB_CUSERS = ['alice', 'root']
+HB_MODES = ['ok', 'wrong_sid', 'wrong_host', 'wrong_key', 'garbage']
+HB_RDNS = [None, 'hostA', 'hostB', 'hostC']
+HB_ADDR = '10.9.0.7'
+
+
+def known_client_hosts_text():
+    out = []
+
+    for host, kname in sorted(HB_KNOWN.items()):
+        out.append('%s %s' % (host, pubkey(kname).export_public_key(
+            'openssh').decode().strip()))
+
+    out.append('@revoked * %s' % pubkey(HB_REVOKED).export_public_key(
+        'openssh').decode().strip())
+    return '\n'.join(out) + '\n'
 
 
 def gen_plan(rng):
@@ -126,11 +157,18 @@ def gen_plan(rng):
         }
         return plan
 
+    if rng.chance(25):
+        # host-based authentication in the mix: does the server take the
+        # client's word for its name, and what does the reverse lookup of
+        # the client's address say
+        plan['hb'] = {'trust': rng.chance(50), 'rdns': rng.choice(HB_RDNS)}
+
     hist = []
 
     for _ in range(rng.between(1, 10)):
         m = rng.weighted([('pw', 35), ('pk', 40), ('none', 8), ('kbd', 10),
-                          ('hostbased', 3), ('chpw', 4)])
+                          ('hostbased', 3), ('chpw', 4)] +
+                         ([('hb', 60)] if 'hb' in plan else []))
         user = rng.choice(USERS)
         wait = rng.chance(45)
 
@@ -150,6 +188,13 @@ def gen_plan(rng):
                          wait])
         elif m == 'kbd':
             hist.append(['kbd', user, rng.choice(['right', 'wrong']), wait])
+        elif m == 'hb':
+            hist.append(['hb', rng.choice(['alice', 'bob', user]),
+                         rng.choice(HB_CLAIMS), rng.choice(HB_KEYS),
+                         rng.weighted([('ok', 70), ('wrong_sid', 8),
+                                       ('wrong_host', 8), ('wrong_key', 8),
+                                       ('garbage', 6)]),
+                         rng.choice(HB_CUSERS), wait])
         else:
             hist.append([m, user, wait])
 
@@ -172,6 +217,10 @@ def valid_plan(plan):
         if 'honest' in plan:
             return plan['honest']['user'] in ('alice', 'bob')
 
+        if 'hb' in plan and (not isinstance(plan['hb']['trust'], bool) or
+                             plan['hb']['rdns'] not in HB_RDNS):
+            return False
+
         for h in plan['history']:
             if h[0] == 'open':
                 if len(h) != 3:
@@ -179,10 +228,18 @@ def valid_plan(plan):
 
                 continue
 
-            if h[0] not in ('pw', 'pk', 'kbd', 'none', 'hostbased', 'chpw'):
+            if h[0] not in ('pw', 'pk', 'kbd', 'none', 'hostbased', 'chpw',
+                            'hb'):
                 return False
 
-            if len(h) != {'pw': 4, 'pk': 5, 'kbd': 4}.get(h[0], 3) or \
+            if h[0] == 'hb' and ('hb' not in plan or len(h) != 7 or
+                                 h[2] not in HB_CLAIMS or
+                                 h[3] not in HB_KEYS or
+                                 h[4] not in HB_MODES or
+                                 h[5] not in HB_CUSERS):
+                return False
+
+            if len(h) != {'pw': 4, 'pk': 5, 'kbd': 4, 'hb': 7}.get(h[0], 3) or \
                     not isinstance(h[-1], bool):
                 return False
 
@@ -223,6 +280,18 @@ def model_valid(plan, h):
 
     if m == 'kbd':
         return (user == 'kbd' and h[2] == 'right'), {}
+
+    if m == 'hb':
+        claimed, keyname, mode, cuser = h[2], h[3], h[4], h[5]
+        claimed = claimed[:-1] if claimed.endswith('.') else claimed
+
+        # the name the key is looked up under: the client's word if the
+        # server trusts it, else what the reverse lookup of its address says
+        looked_up = claimed if plan['hb']['trust'] else \
+            (plan['hb']['rdns'] or HB_ADDR)
+
+        return (mode == 'ok' and HB_KNOWN.get(looked_up) == keyname and
+                (user, looked_up, cuser) in HB_POLICY), {}
 
     if m == 'pk':
         keyname, mode = h[2], h[3]
@@ -356,6 +425,21 @@ class AuthServer(RecServer):
 
         return ok
 
+    def validate_host_based_user(self, username, client_host,
+                                 client_username):
+        ok = (username, client_host, client_username) in HB_POLICY
+        self.validations.append(('hb', username, client_host,
+                                 client_username, ok))
+
+        if self.plan['async_pk']:
+            async def later():
+                await self._delay('hbval')
+                return ok
+
+            return later()
+
+        return ok
+
     def session_requested(self):
         return ProbeSess(self)
 
@@ -424,6 +508,35 @@ def build_pk(peer, user, keyname, mode):
         out += b'\x00'
 
     return out
+
+
+def build_hb(peer, user, claimed, keyname, mode, cuser):
+    priv = load_private(keyname)
+    alg = sig_algs_for(priv)[0]
+    body = string(alg) + string(public_blob(priv))
+    sid = peer.session_id
+    shost = claimed
+    signer = priv
+
+    if mode == 'wrong_sid':
+        sid = bytes(len(sid))
+    elif mode == 'wrong_host':
+        shost = 'hostB' if claimed.startswith('hostA') else 'hostA'
+    elif mode == 'wrong_key':
+        signer = load_private('evil_ecdsa256' if keyname != 'evil_ecdsa256'
+                              else 'evil_rsa')
+
+    signed = string(sid) + bytes([50]) + string(user) + \
+        string(b'ssh-connection') + string(b'hostbased') + body + \
+        string(shost) + string(cuser)
+
+    if mode == 'garbage':
+        sig = string(alg) + string(bytes(64))
+    else:
+        sig = sign(signer, sig_algs_for(signer)[0], signed)
+
+    return auth_request(peer, user, b'hostbased', body + string(claimed) +
+                        string(cuser) + string(sig))
 
 
 def run_hostile(world, plan):
@@ -519,6 +632,9 @@ def run_hostile(world, plan):
                 peer.send(build_pk(peer, user, h[2], h[3]))
             elif m == 'none':
                 peer.send(auth_request(peer, user, b'none', b''))
+            elif m == 'hb':
+                sim.probes['hostbased_request'] += 1
+                peer.send(build_hb(peer, user, h[2], h[3], h[4], h[5]))
             elif m == 'hostbased':
                 blob = public_blob(load_private('user_ed25519'))
                 peer.send(auth_request(
@@ -609,14 +725,28 @@ def run_hostile(world, plan):
                 res['probe'][pr] = p[0]
 
     async def main():
+        extra = {}
+        ckw = {}
+
+        if 'hb' in plan:
+            extra = dict(
+                known_client_hosts=asyncssh.import_known_hosts(
+                    known_client_hosts_text()),
+                trust_client_host=plan['hb']['trust'])
+            ckw = dict(local_addr=(HB_ADDR, 0))
+
+            if plan['hb']['rdns']:
+                sim.net.rdns[HB_ADDR] = plan['hb']['rdns']
+
         acc = await asyncssh.listen(
             '127.0.0.1', 22, server_factory=sfactory,
-            **server_opts(login_timeout=60))
+            **server_opts(login_timeout=60, **extra))
         peer = RefPeer(sim, 'client', rand=seams._urandom,
                        kex=['curve25519-sha256'], enc=['aes128-ctr'],
                        mac=['hmac-sha2-256'])
         res['peer'] = peer
-        await sim.loop.create_connection(lambda: peer, '127.0.0.1', 22)
+        await sim.loop.create_connection(lambda: peer, '127.0.0.1', 22,
+                                         **ckw)
 
         try:
             await script(peer)
@@ -719,6 +849,8 @@ def run_hostile(world, plan):
                     sim.probes['pw_success'] += 1
                 elif 'kbd' in kinds:
                     sim.probes['kbdint_success'] += 1
+                elif 'hb' in kinds:
+                    sim.probes['hostbased_success'] += 1
 
                 # -- restrictions of the accepted credential --------------------
                 def behaviour_ok(opts):
